@@ -175,3 +175,16 @@ Definition ex11 : pairspec :=
   (((POth "common"), "Flag"), DBasic BBool);
   (((POth "common"), "Tiny"), DBasic BInt8);
   (((POth "common"), "Money"), DStruct [{| sf_name := "Units"; sf_emb := false; sf_ty := (TBasic BInt64); sf_tag := "" |}; {| sf_name := "Cur"; sf_emb := false; sf_ty := (TBasic BString); sf_tag := "" |}])] in let FN : list mfunc := [] in {| ps_env := E; ps_fuel := 10; ps_jobs := [{| j_env := E; j_fuel := 10; j_src := "T"; j_dst := "T"; j_funcs := []; j_ic := false; j_src_acc := []; j_dst_acc := []; j_src_ctor := []; j_dst_ctor := []; j_src_shootnew := false; j_manual_to := None; j_manual_from := None; j_mapper_hop := None |}]; ps_funcs := []; ps_manual_to := []; ps_manual_from := []; ps_way := WBoth |}).
+
+(* ex12: accessor tables that no `shoot new -getset` run produces: two setters and a
+   constructor parameter on ONE backing field (the counter-model of the C15 review) *)
+Definition ex12_env : env :=
+  [((PSrc, "T"), DStruct [{| sf_name := "A"; sf_emb := false; sf_ty := TBasic BInt; sf_tag := "" |};
+                          {| sf_name := "B"; sf_emb := false; sf_ty := TBasic BInt; sf_tag := "" |}]);
+   ((PDst, "T"), DStruct [{| sf_name := "x"; sf_emb := false; sf_ty := TBasic BInt; sf_tag := "" |}])].
+Definition ex12_job : job :=
+  {| j_env := ex12_env; j_fuel := 5; j_src := "T"; j_dst := "T"; j_funcs := []; j_ic := false; j_src_acc := [];
+     j_dst_acc := [{| ac_name := "SetA"; ac_ty := TBasic BInt; ac_set := true; ac_path := ["x"] |};
+                   {| ac_name := "SetB"; ac_ty := TBasic BInt; ac_set := true; ac_path := ["x"] |}];
+     j_src_ctor := []; j_dst_ctor := [{| cp_field := "b"; cp_path := ["x"]; cp_ty := TBasic BInt |}];
+     j_src_shootnew := false; j_manual_to := None; j_manual_from := None; j_mapper_hop := None |}.
